@@ -325,6 +325,20 @@ theorem tail_exact_uniform_posDef [NeZero d] (A : Matrix (Fin d) (Fin d) ℝ) (h
   rw [hobj] at hin ⊢
   exact tail_exact_uniform Q hQ _ hpos x₀ b lo hi hbox y hya hyb hin
 
+/-- `b` is the maximum of the objective and it is attained at `x₀` -/
+theorem quadObjective_max (A : Matrix (Fin d) (Fin d) ℝ) (hA : A.PosDef) (x₀ : Fin d → ℝ) (b : ℝ) :
+    (∀ x, quadObjective A x₀ b x ≤ b) ∧ quadObjective A x₀ b x₀ = b := by
+  obtain ⟨Q, _, hpos, hAeq⟩ := posDef_rotated A hA
+  constructor
+  · intro x
+    unfold quadObjective
+    rw [hAeq, quadForm_rotated]
+    have : 0 ≤ ∑ i, hA.1.eigenvalues i * ((Qᵀ *ᵥ (x - x₀)) i) ^ 2 :=
+      Finset.sum_nonneg fun i _ => mul_nonneg (hpos i).le (sq_nonneg _)
+    linarith
+  · unfold quadObjective quadForm
+    simp
+
 /-! ### the containment condition for axis-aligned (diagonal) curvature -/
 
 /-- for diagonal curvature the level ellipsoid `{f ≥ y}` has half-extent `√(2(b−y)/μ_i)` along axis `i`: it lies inside
